@@ -45,7 +45,7 @@ func lex(src string) ([]tok, error) {
 			i++
 		case unicode.IsLetter(rune(c)) || c == '_' || c == '#':
 			j := i + 1
-			for j < len(src) && (unicode.IsLetter(rune(src[j])) || unicode.IsDigit(rune(src[j])) || src[j] == '_' || src[j] == '$') {
+			for j < len(src) && (unicode.IsLetter(rune(src[j])) || unicode.IsDigit(rune(src[j])) || src[j] == '_' || src[j] == '$' || src[j] == '#') {
 				j++
 			}
 			toks = append(toks, tok{"id", src[i:j]})
